@@ -352,6 +352,19 @@ func c12(r *core.Run) {
 	}
 	mixedMode := false
 	snapViol := ""
+	// containers handed out by queries are kept and looked at again at the end of
+	// the run: a result that changes after it was returned is not a snapshot
+	type kept struct {
+		what string
+		was  string
+		now  func() string
+	}
+	var keptResults []kept
+	keep := func(what string, now func() string) {
+		if len(keptResults) < 64 {
+			keptResults = append(keptResults, kept{what, now(), now})
+		}
+	}
 	admissible := func(kind, arg string) map[string]bool {
 		out := map[string]bool{}
 		for c := range seenCfg {
@@ -401,7 +414,11 @@ func c12(r *core.Run) {
 			var p planned
 			switch src.Pick(3, 3, 3, 2, 2, 1, 1, 1, 1, 1, 1, 2, 1, 3, 2, 1, 1) {
 			case 0:
-				p = planned{"ListDevices", "", func() string { return strings.Join(e.cache.ListDevices(), ",") }}
+				p = planned{"ListDevices", "", func() string {
+					l := e.cache.ListDevices()
+					keep("the slice returned by ListDevices", func() string { return strings.Join(l, ",") })
+					return strings.Join(l, ",")
+				}}
 			case 1:
 				q := c12Name([]string{"d0", "d1", "d2"}[src.Intn(3)])
 				p = planned{"GetDevice", q, func() string {
@@ -460,11 +477,13 @@ func c12(r *core.Run) {
 				}}
 			case 5:
 				p = planned{"GetErrors", "", func() string {
+					var m map[string][]error
 					if useDefault {
-						_ = cdi.GetErrors()
+						m = cdi.GetErrors()
 					} else {
-						_ = e.cache.GetErrors()
+						m = e.cache.GetErrors()
 					}
+					keep("the map returned by GetErrors", func() string { return fmt.Sprint(m) })
 					return ""
 				}}
 			case 6:
@@ -475,13 +494,32 @@ func c12(r *core.Run) {
 					return ""
 				}}
 			case 7:
-				p = planned{"GetSpecDirectories", "", func() string { return strings.Join(e.cache.GetSpecDirectories(), ",") }}
+				p = planned{"GetSpecDirectories", "", func() string {
+					l := e.cache.GetSpecDirectories()
+					keep("the slice returned by GetSpecDirectories", func() string { return strings.Join(l, ",") })
+					return strings.Join(l, ",")
+				}}
 			case 8:
-				p = planned{"GetSpecDirErrors", "", func() string { _ = e.cache.GetSpecDirErrors(); return "" }}
+				p = planned{"GetSpecDirErrors", "", func() string {
+					m := e.cache.GetSpecDirErrors()
+					keep("the map returned by GetSpecDirErrors", func() string { return fmt.Sprint(m) })
+					return ""
+				}}
 			case 9:
 				p = planned{"ListClasses", "", func() string { _ = e.cache.ListClasses(); return "" }}
 			case 10:
-				p = planned{"GetVendorSpecs", "", func() string { _ = e.cache.GetVendorSpecs("vendor.com"); return "" }}
+				p = planned{"GetVendorSpecs", "", func() string {
+					l := e.cache.GetVendorSpecs("vendor.com")
+					show := func() string {
+						var ps []string
+						for _, sp := range l {
+							ps = append(ps, fmt.Sprintf("%s|%d|%d", sp.GetPath(), sp.GetPriority(), len(sp.Devices)))
+						}
+						return strings.Join(ps, ",")
+					}
+					keep("the slice returned by GetVendorSpecs", show)
+					return ""
+				}}
 			case 11:
 				c := src.Intn(len(c12Cfgs))
 				p = planned{"ConfigureDirs", fmt.Sprint(c), func() string {
@@ -608,6 +646,11 @@ func c12(r *core.Run) {
 			rc.CurTask, rw(rc.CurWrite), simrt.Site(rc.CurSite), rw(rc.PrevWrite), rc.PrevTask, simrt.Site(rc.PrevSite))
 	}
 	r.CheckHealth("after the concurrent operations")
+	for _, k := range keptResults {
+		if now := k.now(); now != k.was {
+			r.Failf("snapshot", "result-changed-after-return", "%s changed after it was returned: it was [%s], it now reads [%s]", k.what, k.was, now)
+		}
+	}
 	// 4. linearizability, in runs that stay in manual mode
 	if !auto && !mixedMode {
 		var ops []porcupine.Operation
